@@ -24,8 +24,8 @@ def CrashSafeRecovery (env : Env) (g : Geo) (img : List Cell) (ws : List (Sys Ce
 /-- `ws` is what an uninterrupted in-place recovery of `img` writes: an instance of the recorded
     protocol whose completed image shows the recovered frames with nothing left to replay -/
 structure IsRecoveryRun (env : Env) (g : Geo) (img : List Cell) (ws : List (Sys Cell)) : Prop where
-  shape : ∃ sentOff sent payloads truncTo segments growTo tocOff toc footer h1 h2,
-    ws = recoverProto 0 sentOff sent payloads truncTo segments growTo tocOff toc footer h1 h2
+  shape : ∃ sentOff sent payloads truncTo segments growTo tocOff toc footer h1 sketch toc2 h2,
+    ws = recoverProto 0 sentOff sent payloads truncTo segments growTo tocOff toc footer h1 sketch toc2 h2
   needed : ∃ fs n v c, recover env g img = .ok fs (n + 1) v c
   complete : (recover env g (applyAll img ws)).logical = (recover env g img).logical
   settled : ∃ fs v c, recover env g (applyAll img ws) = .ok fs 0 v c
@@ -62,11 +62,11 @@ def timg : List Cell :=
 /-- what `recover_wal` writes on it (instance of `Emit.recoverProto`) -/
 def tws : List (Sys Cell) :=
   recoverProto 0 5 (zeroCells 1) [(10, objCells 20 2)] (some 12) [] none 12 (objCells 32 4) (objCells 33 2)
-    (objCells 2 2) (objCells 3 2)
+    (objCells 2 2) [] none (objCells 3 2)
 
 theorem toy_is_recovery_run : IsRecoveryRun tenv tg timg tws := by
   refine ⟨⟨5, zeroCells 1, [(10, objCells 20 2)], some 12, [], none, 12, objCells 32 4, objCells 33 2,
-           objCells 2 2, objCells 3 2, rfl⟩, ?_, ?_, ?_⟩
+           objCells 2 2, [], none, objCells 3 2, rfl⟩, ?_, ?_, ?_⟩
   · exact ⟨[{ status := 0, sum := 10, readable := true }, { status := 0, sum := 20, readable := true }], 0, false, 1,
            by decide⟩
   · decide
